@@ -36,7 +36,22 @@ import jinja2, jinja2.sandbox, jinja2.nativetypes
 EXT = ["jinja2.ext.loopcontrols", "jinja2.ext.do", "jinja2.ext.i18n", "jinja2.ext.debug"]
 DELIMS = dict(block_start_string="<%", block_end_string="%>", variable_start_string="${", variable_end_string="}$",
               comment_start_string="<#", comment_end_string="#>")
-MK = {"sync": lambda: jinja2.Environment(extensions=EXT),
+from jinja2.ext import Extension
+from jinja2.lexer import Token
+class _Data(Extension):
+    # equal priority, non-commuting rewrites of the template data tokens
+    def filter_stream(self, stream):
+        for tok in stream:
+            yield Token(tok.lineno, tok.type, self.f(tok.value)) if tok.type == "data" else tok
+class Up(_Data):
+    f = staticmethod(lambda v: v.upper())
+class AddX(_Data):
+    f = staticmethod(lambda v: v + "x")
+class Dup(_Data):
+    f = staticmethod(lambda v: v[:1] + v)
+CTOR_EXT = ["__main__.Up", "__main__.AddX", "__main__.Dup"] + EXT
+MK = {"ctor_ext": lambda: jinja2.Template("", extensions=CTOR_EXT).environment,
+      "sync": lambda: jinja2.Environment(extensions=EXT),
       "async": lambda: jinja2.Environment(extensions=EXT, enable_async=True),
       "sandbox": lambda: jinja2.sandbox.SandboxedEnvironment(extensions=EXT),
       "native": lambda: jinja2.nativetypes.NativeEnvironment(extensions=EXT),
@@ -130,6 +145,53 @@ FILTERS = ["upper", "lower", "trim", "title", "length", "string", "first", "last
 TESTS = ["defined", "odd", "even", "none", "string", "number", "iterable", "mapping", "lower", "upper"]
 
 
+# every builtin filter / test applied to CONSTANT input with samples of its optional arguments (the optimizer folds
+# these at compile time: whatever the filter computes lands in the generated source)
+C_STR = ["'http://a.example/x?y=1&z=2 www.b.example mail@c.example'", "'alpha beta gamma delta alpha'", "'  Hello <b>World</b>  '",
+         "'a,b;c'", "'3.7'", "'größe ﬁn'"]
+C_LIST = ["['b', 'a', 'c', 'a']", "[3, 1, 2, 3]", "[('k', 2), ('j', 1)]", "[{'n': 'x', 'v': 2}, {'n': 'y', 'v': 1}, {'n': 'x', 'v': 3}]",
+          "['alpha', 'Beta', 'gamma']"]
+C_DICT = ["{'b': 1, 'a': 2, 'C': 3}", "{'class': 'x y', 'id': 'i1', 'data-k': none, 'title': 'a&b'}"]
+C_FILTER_ARGS = {
+    "urlize": ["", "(20)", "(nofollow=true)", "(rel='ugc external')", "(nofollow=true, rel='ugc external me')", "(target='_blank', rel='a b c d')",
+               "(extra_schemes=['tel:', 'ftp:', 'x:'])", "(10, true, '_top', 'z y x w')"],
+    "xmlattr": ["", "(false)"], "tojson": ["", "(2)"], "dictsort": ["", "(true)", "(by='value')", "(reverse=true)"],
+    "items": [""], "unique": ["|list", "(true)|list", "(attribute='n')|list"], "groupby": ["('n')|list", "('n', default='q')|list", "('v')|map('first')|list"],
+    "map": ["('upper')|list", "(attribute='n')|list", "('default', 'z')|list"], "select": ["|list", "('string')|list"], "reject": ["('none')|list"],
+    "selectattr": ["('n')|list", "('v', 'gt', 1)|list"], "rejectattr": ["('v', 'odd')|list"], "sort": ["", "(true)", "(attribute='v')", "(case_sensitive=true)"],
+    "slice": ["(2)|list", "(3, 'f')|list"], "batch": ["(2)|list", "(3, 'f')|list"], "wordwrap": ["(8)", "(5, false)", "(7, true, '|')"],
+    "truncate": ["(9)", "(9, true)", "(9, false, '~', 0)"], "indent": ["", "(2, true)", "(width='>>', blank=true)"], "center": ["(40)"],
+    "replace": ["('a', 'A')", "('a', 'A', 1)"], "round": ["", "(1, 'floor')"], "sum": ["", "(start=10)", "(attribute='v')"], "join": ["", "(', ')", "('-', attribute='n')"],
+    "striptags": [""], "title": [""], "capitalize": [""], "upper": [""], "lower": [""], "trim": ["", "('a ')"], "wordcount": [""], "urlencode": [""],
+    "escape": [""], "forceescape": [""], "safe": [""], "string": [""], "list": [""], "length": [""], "first": [""], "last": [""], "reverse": ["|list"],
+    "min": ["", "(attribute='v')"], "max": ["", "(case_sensitive=true)"], "abs": [""], "int": ["", "(5, 16)"], "float": ["", "(1.5)"], "default": ["('d')", "('d', true)"],
+    "filesizeformat": ["", "(true)"], "format": ["('x')"], "pprint": [""], "attr": ["('real')"], "count": [""], "d": ["('q')"], "e": [""],
+}
+C_TESTS = ["defined", "none", "string", "number", "mapping", "sequence", "iterable", "odd", "even", "lower", "upper", "true", "false", "boolean",
+           "integer", "float", "callable", "sameas(1)", "eq(1)", "in([1, 2])", "divisibleby(2)", "filter", "test"]
+
+
+def const_filter_sweep(rng):
+    """the whole table once: every (filter, argument sample) on two suitable constants"""
+    out = []
+    for f in sorted(C_FILTER_ARGS):
+        for arg in C_FILTER_ARGS[f]:
+            if f in ("filesizeformat", "int", "float", "round", "abs"):
+                pool = ["'3.7'", "1234567", "-2.5"]
+            elif f in ("urlize", "striptags", "wordwrap", "truncate", "indent", "center", "replace", "title", "capitalize", "trim", "wordcount",
+                       "urlencode", "format", "escape", "forceescape", "e", "upper", "lower", "safe", "string"):
+                pool = C_STR
+            elif f in ("xmlattr", "dictsort", "items", "tojson", "pprint"):
+                pool = C_DICT
+            elif f in ("default", "d", "attr"):
+                pool = ["none", "3", "''"]
+            else:
+                pool = C_LIST
+            for src in rng.sample(pool, min(2, len(pool))):
+                out.append("{{ (" + src + ")|" + f + arg + " }}")
+    return out
+
+
 class TextGen:
     def __init__(self, rng):
         self.r = rng
@@ -139,7 +201,24 @@ class TextGen:
 
     def piece(self, depth=2):
         r = self.r
-        k = r.randrange(17)
+        k = r.randrange(19)
+        if k >= 17:
+            f = r.choice(sorted(C_FILTER_ARGS))
+            arg = r.choice(C_FILTER_ARGS[f])
+            src = r.choice(C_STR + C_LIST + C_DICT + ["3", "-2.5", "none", "true"])
+            if f in ("urlize", "striptags", "wordwrap", "truncate", "indent", "center", "replace", "title", "capitalize", "trim", "wordcount",
+                     "urlencode", "format", "filesizeformat", "int", "float", "round", "abs") and r.random() < 0.8:
+                src = r.choice(C_STR) if f not in ("filesizeformat", "int", "float", "round", "abs") else r.choice(["'3.7'", "1234567", "-2.5"])
+            elif f in ("xmlattr", "dictsort", "items", "tojson") and r.random() < 0.8:
+                src = r.choice(C_DICT)
+            elif r.random() < 0.7 and f not in ("default", "d", "e", "escape", "string", "safe", "pprint", "attr", "length", "count"):
+                src = r.choice(C_LIST)
+            t = " is " + r.choice(C_TESTS) if r.random() < 0.2 else ""
+            ae = r.random()
+            body = "{{ (" + src + ")|" + f + arg + t + " }}"
+            if ae < 0.15:
+                return "{% autoescape true %}" + body + "{% endautoescape %}"
+            return body
         if k == 16:
             # user filters on constants (folded by the optimizer) and on variables
             words = " ".join(r.sample(IDS[:14], r.randint(2, 6)))
@@ -240,12 +319,12 @@ def source_under_seed(item, sd):
 
 
 MODES = ["sync", "async", "sandbox", "native", "async_sandbox", "unoptimized", "autoescape", "autoescape_select",
-         "immutable", "overlay", "delims", "named", "defer_init", "newstyle"]
+         "immutable", "overlay", "delims", "named", "defer_init", "newstyle", "ctor_ext"]
 EXCLUDED_AXES = {
     "line statements / whitespace control": "lexer options change the token stream, not the code generator; a sample (trim_blocks) rides on the overlay mode",
     "bytecode cache": "stores marshal.dumps(code object); its bytes carry interpreter reference flags and are not the generated source the statement is about",
     "loaders": "compile() does not consult the loader; the template name reaches the generated code only through name / filename (mode named)",
-    "Template(...) constructor / compile_expression": "both go through Environment.compile of an environment with the same options; the generated source is not reachable (only the code object)",
+    "compile_expression": "goes through Environment.compile of the same environment; the generated source is not reachable (only the code object)",
 }
 
 
@@ -342,6 +421,9 @@ def run(ctx):
         ts, main = TGen(rng, depth=rng.randint(1, 3), names=["a", "b", "c", "x", "y", "zeta", "k2"]).template_set()
         sets += list(ts.values())
     judge(ctx, with_modes(sets), seeds, "set")
+    sweep = const_filter_sweep(rng)
+    judge(ctx, [(MODES[i % 3] if i % 4 else "autoescape", src) for i, src in enumerate(sweep)] + [("sync", src) for src in sweep[1::2]],
+          seeds, "constfilter")
 
 
 def replay(ctx, data):
